@@ -98,10 +98,22 @@ class FanOut:
 
     def receiver_ok(self, recv, loopvars):
         # receiver is the element variable of the innermost enclosing loop over its class's container, or a singleton path
-        for lp in reversed(loopvars):
+        # An event on the element of an *outer* loop (or on a singleton) that sits inside a further loop over a model collection
+        # is applied once per element of that inner collection -- 0, 1 or many times per object, not once (seed C08-k).
+        for i in range(len(loopvars) - 1, -1, -1):
+            lp = loopvars[i]
             if isinstance(lp.var, Obj) and lp.var == recv:
-                return True
+                return not any(isinstance(inner.var, Obj) for inner in loopvars[i + 1:])
+        if any(isinstance(lp.var, Obj) for lp in loopvars) and not recv.name.startswith("new"):
+            return "[*" not in recv.name and not any(self._per_element(lp, recv) for lp in loopvars)
         return "[*" not in recv.name and not recv.name.startswith("new")
+
+    @staticmethod
+    def _per_element(lp, recv):
+        """A singleton receiver inside a loop whose collection is reached through that same singleton (`for f in self.facility_list:
+        self.log.append(..)`) is touched once per element of the collection."""
+        path = lp.coll.base if isinstance(lp.coll, CollV) else (lp.coll.tag if isinstance(lp.coll, Unk) else None)
+        return isinstance(lp.var, Obj) and isinstance(path, str) and path.startswith(recv.name + ".")
 
     def complete(self, lp):
         """Loop iterates a plain container attribute of the tree, unfiltered."""
